@@ -647,7 +647,7 @@ pub fn run(opts: &Opts) -> Report {
         seq_part(&mut rep, opts);
     }
     if want("conc") {
-        let n = if cfg!(miri) { 2 } else { opts.n(1500, 40000) };
+        let n = if cfg!(miri) { 2 * opts.nshards as u64 } else { opts.n(1500, 40000) };
         for case in 0..n {
             if !opts.mine(case) {
                 continue;
